@@ -94,6 +94,9 @@ func genScenario(r *rand.Rand, id int) scenario {
 		members = append(members, fmt.Sprintf("m%d", i))
 	}
 	sc := scenario{ID: id, Text: b.String(), Members: members, Procs: []int{1, 2, 4, 8, 16}[r.Intn(5)], Data: r.Intn(3)}
+	if r.Intn(3) == 0 {
+		sc.Data = 3 + r.Intn(8) // pointer-valued data, one of eight named element types
+	}
 	nt := 2 + r.Intn(7)
 	for t := 0; t < nt; t++ {
 		var calls []call
@@ -118,7 +121,47 @@ func genScenario(r *rand.Rand, id int) scenario {
 	return sc
 }
 
+// named string types reached through pointers: printing them dereferences (safehtmlutil.Stringify), which must
+// not touch shared state either
+type (
+	rs0 string
+	rs1 string
+	rs2 string
+	rs3 string
+	rs4 string
+	rs5 string
+	rs6 string
+	rs7 string
+)
+
+func ptr[T any](v T) *T { return &v }
+
+func namedPtr(k int, s string) interface{} {
+	switch k % 8 {
+	case 0:
+		return ptr(rs0(s))
+	case 1:
+		return ptr(ptr(rs1(s)))
+	case 2:
+		return ptr(rs2(s))
+	case 3:
+		return ptr(ptr(ptr(rs3(s))))
+	case 4:
+		return ptr(rs4(s))
+	case 5:
+		return ptr(ptr(rs5(s)))
+	case 6:
+		return ptr(rs6(s))
+	}
+	return ptr(rs7(s))
+}
+
 func dataFor(k int) interface{} {
+	if k >= 3 {
+		inner := map[string]interface{}{"X": namedPtr(k+1, "<i>&"), "N": nil}
+		return map[string]interface{}{"X": namedPtr(k, "a<b\"'&"), "Y": ptr("y>"), "C": ptr(true), "L": []interface{}{ptr(1), namedPtr(k+2, "<2>")},
+			"M": map[string]interface{}{"X": namedPtr(k+3, "m&")}, "N": inner}
+	}
 	inner := map[string]interface{}{"X": "<i>&", "N": nil}
 	m := map[string]interface{}{"X": "a<b\"'&", "Y": "y>", "C": k != 1, "L": []interface{}{"1", "<2>"}, "M": map[string]interface{}{"X": "m&"}, "N": inner}
 	if k == 2 {
